@@ -237,7 +237,7 @@ def _recv_stream(case):
             spare = list(m.get('spare') or [])
             if toks or spare:
                 f[9] = len(toks) + len(spare)
-            raw = R.encode_message(m['type'], m['serial'], f, m['sig'], trees, m['little'])
+            raw = R.encode_variant(m['serial'] + len(toks), m['type'], m['serial'], f, m['sig'], trees, m['little'])
             out.append((raw, toks + spare))
         else:
             out.append((S.ref_message_bytes(m, m['little']), []))
